@@ -721,7 +721,12 @@ class SurfaceContainer(AbstractContainer):
             with utl.pool_context(processes=num_procs) as pool:
                 tmp_elem = pool.map(partial(process_tessellate, delta=self.delta, update_delta=update_delta, **kwargs),
                                     self._elements)
-                new_elems += tmp_elem
+            # The worker processes return tessellated copies: bring their state back to the container's own elements,
+            # so that the container keeps referring to the surfaces that were added to it (as with a single process)
+            for elem, tsl_elem in zip(self._elements, tmp_elem):
+                if tsl_elem is not elem:
+                    elem.__dict__.update(tsl_elem.__dict__)
+            new_elems += self._elements
         else:
             for idx in range(len(self._elements)):
                 tmp_elem = process_tessellate(self._elements[idx], delta=self.delta, update_delta=update_delta, **kwargs)
